@@ -204,6 +204,9 @@ def run_lossmin(case, qt, empi, detailed=True):
         num_history_stopping_criterion_gradient_descent=case["num_history"],
         mode_proj_order=case["order"],
         max_iteration_optimization=case["max_iter"],
+        # bound the inner Dykstra projection as well (library default 100000 sweeps per projection): a run that hits
+        # this cap prints the library's warning and is counted inconclusive by the callers (proj_cap_hit)
+        max_iteration_proj_physical=case.get("max_iter_proj", 3000),
         **({"eps": case["algo_eps"]} if case.get("algo_eps") else {}),
     )
     res = LossMinimizationEstimator().calc_estimate(
@@ -211,6 +214,12 @@ def run_lossmin(case, qt, empi, detailed=True):
         is_computation_time_required=detailed, is_detailed_results_required=detailed,
     )
     return res, loss
+
+
+def proj_cap_hit(ctx):
+    """True when the library printed its 'projection iterations exceeds the limit' warning during this case."""
+    cap = getattr(ctx, "captured_stdout", None)
+    return cap is not None and "projection iterations exceeds the limit" in cap.getvalue()
 
 
 def check_lossmin(case, ctx):
@@ -230,6 +239,9 @@ def check_lossmin(case, ctx):
     q = res.estimated_qoperation
     z = tomo.estimate_stacked(q)
     ctx.check(np.all(np.isfinite(z)), "estimate_finite")
+    if proj_cap_hit(ctx):
+        ctx.skip("projection-iteration-cap")
+        return
     scale = float(np.linalg.norm(z))
     tol = tol_eps(1e-14, scale)
     eq_on, ineq_on = case["constraints"]
@@ -291,7 +303,7 @@ def check_recovery(case, ctx):
     x = tomo.stacked_true(case, info)
     boundary = _is_boundary(case, info)
     ctx.label(case["tomo"], f"flag:{case['flag']}", case["loss"], "boundary" if boundary else "interior")
-    if det.k >= case["max_iter"]:
+    if det.k >= case["max_iter"] or proj_cap_hit(ctx):
         ctx.skip("max-iteration")
         return
     # stopping on a loss decrease < 1e-14: squared-error loss ~ sigma_min(A)^2 |dx|^2 ; relative entropy is flatter
